@@ -110,6 +110,11 @@ func (v *autoEscapeVisitor) Leave(n parse.Node) {
 }
 
 func (v *autoEscapeVisitor) guessTypeFromName(name string) string {
+	if strings.Contains(name, "{{") || strings.Contains(name, "{%") {
+		// An inline template (the StringLoader uses the source as its name),
+		// not a file name: whatever follows its last dot is not an extension.
+		return "html"
+	}
 	name = strings.TrimSuffix(name, ".twig")
 	if p := strings.LastIndex(name, "."); p >= 0 {
 		ext := name[p+1:]
